@@ -390,6 +390,7 @@ object_t* load_object (const char *mudlib_filename, const char *pre_text) {
   object_t *ob, *save_command_giver = command_giver;
   svalue_t *mret;
   struct stat c_st;
+  int name_is_legal;
   char real_name[PATH_MAX], name[PATH_MAX - 2];
 
   if (++num_objects_this_thread > CONFIG_INT (__INHERIT_CHAIN_SIZE__))
@@ -414,7 +415,10 @@ object_t* load_object (const char *mudlib_filename, const char *pre_text) {
   (void) strncat (real_name, ".c", sizeof(real_name) - strlen(real_name) - 1);
 
   opt_trace(TT_COMPILE|1, "load_object: \"%s\"", real_name);
-  if (stat (real_name, &c_st) == -1)
+  /* A name that is not a legal path is not looked up in the file system at all (whether
+   * "/../x.c" exists is nobody's business): it is a virtual object or it does not exist. */
+  name_is_legal = legal_path (real_name);
+  if (!name_is_legal || stat (real_name, &c_st) == -1)
     {
       svalue_t *v;
 
@@ -440,18 +444,15 @@ object_t* load_object (const char *mudlib_filename, const char *pre_text) {
           num_objects_this_thread--;
           return 0;
         }
-    }
-  else
-    {
-      /*
-      * Check if it's a legal name.
-      */
-      if (!legal_path (real_name))
+      else if (!name_is_legal)
         {
           debug_message ("Illegal pathname: /%s\n", real_name);
           error ("*Illegal path name '/%s'.", real_name);
           return 0;
         }
+    }
+  else
+    {
       opt_trace (TT_COMPILE|2, "legal_path passed: \"%s\"", real_name);
     }
 
